@@ -765,8 +765,14 @@ def runImplGuarded {σ : Type} (cfg : Cfg σ)
               | none => (r.1, .raise detailsExn)
           | .raise e => (r.1, .raise e)
       | kind =>
-          -- the other three look at it first and only forward when it is false
-          if !(w.journals j).active then runImplGuarded cfg body inner self arg w else
+          -- the other three look at it first and only forward when it is false: `return original_method(...)`;
+          -- the setter wrapper forwards with `original_setter(self, value); return`, i.e. it hands back None
+          if !(w.journals j).active then
+            let r := runImplGuarded cfg body inner self arg w
+            (r.1, match r.2 with
+                  | .ret v => .ret (if kind = .setter then .none else v)
+                  | .raise e => .raise e)
+          else
           match cfg.details k self arg w.ir with
           | none => (w, .raise detailsExn)
           | some s' =>
@@ -777,8 +783,80 @@ def runImplGuarded {σ : Type} (cfg : Cfg σ)
                     .ret (if kind = .setter then .none else v))
               | .raise e => (r.1, .raise e)
 
+/-! the `_active` check inside a wrapper, *derived from `runImplGuarded`* like the order of effects above: one
+    wrapper of journal 0 on slot `k` whose journal is NOT active, on the probe configuration -/
+
+def probeWorldInactive : World (List Nat) :=
+  let w := enterRaw 0 (initialWorld [])
+  { w with journals := upd w.journals 0 { (w.journals 0) with active := false } }
+
+def probeRunG (bodyOk : Bool) (k : Nat) : World (List Nat) × Outcome :=
+  runImplGuarded (probeCfg bodyOk) (fun _ _ _ w => ({ w with ir := w.ir ++ [1] }, if bodyOk then .ret (.int 7) else .raise 9))
+    (probeWorldInactive.table k) 5 .none probeWorldInactive
+
+/-- an inactive wrapper only forwards: the original runs once, the `details` expression is not evaluated (for a
+    setter: the old value is not read), nothing is recorded -/
+def guardForwards (k : Nat) : Bool :=
+  (probeRunG true k).1.ir = [1] ∧ ((probeRunG true k).1.journals 0).entries.length = 0
+/-- ... and hands the original's result back (false: None) -/
+def guardReturnsResult (k : Nat) : Bool := (probeRunG true k).2 = .ret (.int 7)
+/-- ... and lets the original's exception through -/
+def guardPropagates (k : Nat) : Bool := (probeRunG false k).2 = .raise 9 ∧ (probeRunG false k).1.ir = [1]
+
 def callCapturedGuarded {σ : Type} (cfg : Cfg σ) : Nat → Captured → Val → World σ → World σ × Outcome
   | 0, _, _, w => (w, .raise fuelExn)
   | f + 1, c, arg, w => runImplGuarded cfg (runOrig cfg (dispatch cfg f)) c.impl c.self arg w
+
+/-! ## Round 5: the code as it is since repo commit 1a1144b, everywhere
+
+`runImplGuarded` is one wrapper chain with the `journal._active` check; `callCapturedGuarded` still sent the
+NESTED calls of the original through the unchecked `dispatch`.  Below every lookup on the class - the call itself
+and every nested instrumented call - runs the checked wrappers: this is what /repo executes.  Additional; nothing
+above is changed. -/
+
+/-- attribute lookup on the class + call, all wrappers with the `_active` check (_wrappers.py 47-52, 74-85,
+    105-115, 137-148), also for the calls the original's body makes -/
+def dispatchG {σ : Type} (cfg : Cfg σ) : Nat → Nat → Obj → Val → World σ → World σ × Outcome
+  | 0, _, _, _, w => (w, .raise fuelExn)
+  | f + 1, slot, self, arg, w =>
+      runImplGuarded cfg (runOrig cfg (dispatchG cfg f)) (w.table slot) self arg w
+
+/-- `runBlock` over the checked wrappers -/
+def runBlockG {σ : Type} (cfg : Cfg σ) (fuel : Nat) : Block σ → World σ → World σ × Option Nat
+  | .skip, w => (w, none)
+  | .op p, w =>
+      let r := runProg (dispatchG cfg fuel) p w
+      ({ r.1 with log := r.1.log ++ [r.2] },
+        match r.2 with
+        | .ret _ => none
+        | .raise e => some e)
+  | .seq a b, w =>
+      let r := runBlockG cfg fuel a w
+      match r.2 with
+      | none => runBlockG cfg fuel b r.1
+      | some e => (r.1, some e)
+  | .withJ j body, w =>
+      match enter j w with
+      | none => (w, some enterExn)
+      | some w1 =>
+        let r := runBlockG cfg fuel body w1
+        (exit j r.1, r.2)
+  | .attempt body, w =>
+      ((runBlockG cfg fuel body w).1, none)
+
+/-- `runFlat` over the checked wrappers: for ANY word, properly nested or not (a stale wrapper left in the class
+    table by exits out of order only forwards) -/
+def runFlatG {σ : Type} (cfg : Cfg σ) (fuel : Nat) : List (FEv σ) → World σ → World σ
+  | [], w => w
+  | .enter j :: r, w => runFlatG cfg fuel r ((enter j w).getD w)
+  | .exit j _ :: r, w => runFlatG cfg fuel r (exit j w)
+  | .op p :: r, w =>
+      let x := runProg (dispatchG cfg fuel) p w
+      runFlatG cfg fuel r { x.1 with log := x.1.log ++ [x.2] }
+
+/-- a kept callable called: its own wrappers AND the nested lookups are the checked ones -/
+def callCapturedG {σ : Type} (cfg : Cfg σ) : Nat → Captured → Val → World σ → World σ × Outcome
+  | 0, _, _, w => (w, .raise fuelExn)
+  | f + 1, c, arg, w => runImplGuarded cfg (runOrig cfg (dispatchG cfg f)) c.impl c.self arg w
 
 end IrVerif.Journal
